@@ -27,6 +27,7 @@ RULE = ("direct-driven histories on a real Models (n=1..4, every admissible "
         "unchanged at the probes.  Non-trivial = npt < (n+1)(n+2)/2 with a "
         "non-zero Hessian; distinct = (n, npt, operation pattern)")
 RULE += ("  Also: initial sets made asymmetric by bounds on / near x0; long histories (130 consecutive replacements) in which EVERY update is compared in floating point with 'model before + least-Frobenius-norm interpolant of the residual on the new set'. Bounds are relative to the magnitude of the Hessian representation (explicit part plus individual implicit terms).")
+RULE += (" Base shifts to arbitrary points of the region.")
 ASSUMPTIONS = [
     "bounds: fresh N*eps*cond2*|z|, one-step N*eps*(cond2*max(|z|,|d|) + "
     "|old coefficients|) in the balanced scaling; held <= 1e3x, violation > "
